@@ -46,7 +46,7 @@ def make_streams(rnd, method, tier):
     return out
 
 
-def shard(method, seed, tier):
+def shard(method, seed, tier, sweep=False):
     sh = core.Shard()
     rnd = random.Random(seed)
     cases = []
@@ -58,7 +58,7 @@ def shard(method, seed, tier):
             decl = sorted(set(decl + list(range(0, len(plain) + 2))))
         for n in decl:
             big = max(n, 1) + 100000
-            ref = dech.Case(method, stream, n, sched=[big], flags=dech.F_MONITOR, attach_after=0,
+            ref = dech.Case(method, stream, n, sched=[big], flags=dech.F_MONITOR | dech.F_ONEREAD, attach_after=0,
                             meta=('ref', kind, n))
             scheds = []
             for k in (1, 2, 3, 16, 64, 4096):
@@ -84,6 +84,23 @@ def shard(method, seed, tier):
             cases.append(ref)
             cases += sc
             groups.append((ref, sc, kind, n, plain))
+
+    # truncation sweep: a valid stream cut at every byte offset; the one-call reference against reads that carry on after
+    # the first short read (whatever is left in the bit buffer after a failure must not be decoded by a later call)
+    if sweep or tier == 'thorough':
+        s, p, _ = streams.valid_stream(rnd, method, 150 if tier == 'quick' else rnd.choice([60, 150, 600]))
+        cuts = list(range(1, len(s)))
+        if len(cuts) > 400:
+            cuts = sorted(rnd.sample(cuts, 400))
+        for cut in cuts:
+            n = len(p)
+            big = n + 100000
+            ref = dech.Case(method, s[:cut], n, sched=[big], flags=dech.F_ONEREAD, meta=('ref', 'truncation-sweep', n))
+            sc = [dech.Case(method, s[:cut], n, sched=sd, meta=('sched', 'truncation-sweep', n)) for sd in ([1], [16], [big], [rnd.randrange(2, 3000)])]
+            cases.append(ref)
+            cases += sc
+            groups.append((ref, sc, 'truncation-sweep', n, None))
+        sh.count('truncation_sweep_cuts', len(cuts))
 
     def on_crash(case, cls, key, err):
         sh.violation('C14-crash:' + key, '%s decoder (%s stream, declared %d, schedule %s) ended in %s: %s'
@@ -163,10 +180,12 @@ def run(ctx):
     reps = 4 if ctx.tier == 'quick' else 40
     for mi, m in enumerate(streams.ALL_METHODS):
         for r in range(reps):
-            args.append((m, ctx.seed * 4001 + mi * 17 + r, ctx.tier))
+            args.append((m, ctx.seed * 4001 + mi * 17 + r, ctx.tier, r == 0))
     core.run_shards(ctx, shard, args)
     ctx.cov['rule'] = ('(method, stream, declared length, read schedule, monitor attach point) tuples over all 14 method names; streams: '
-                       'valid (from the serialisers), truncated, bit-flipped, random, empty; schedules: fixed 1/2/3/16/64/4096, maximal, '
+                       'valid (from the serialisers), truncated (random cut, plus a sweep over every cut of one stream per method), '
+                       'bit-flipped, random, empty; the reference is ONE maximal lha_decoder_read call, the schedules carry on until a '
+                       'read returns 0; schedules: fixed 1/2/3/16/64/4096, maximal, '
                        'random mixes with zero-length reads, and all 2^(n-1) compositions for outputs of <= 9 (quick) / 12 (thorough) bytes; '
                        'distinct by the whole tuple; non-trivial = reference output longer than 1 byte and schedule other than a lone zero read')
     ctx.assumptions.append('the input callback of the harness delivers exactly what is asked while data remains (short only at end of data)')
